@@ -290,13 +290,14 @@ def theorems_of(module_path, namespace):
     return ['%s.%s' % (namespace, m) for m in re.findall(r'^\s*theorem\s+([\w\.\']+)', txt, flags=re.M)]
 
 def print_axioms(ctx, module, names):
-    src = 'import %s\n' % module + ''.join('#print axioms %s\n' % n for n in names)
+    mods = module if isinstance(module, (list, tuple)) else [module]
+    src = ''.join('import %s\n' % m for m in mods) + ''.join('#print axioms %s\n' % n for n in names)
     path = ctx.sc.path('Audit.lean')
     open(path, 'w').write(src)
     p = subprocess.run(['lake', 'env', 'lean', path], cwd=LEAN_DIR, capture_output=True, text=True)
     res = {}
     txt = p.stdout + p.stderr
-    for m in re.finditer(r"'([^']+)' depends on axioms: \[([^\]]*)\]|'([^']+)' does not depend on any axioms", txt):
+    for m in re.finditer(r"^'(.+?)' depends on axioms: \[([^\]]*)\]|^'(.+?)' does not depend on any axioms", txt, re.M):
         if m.group(1): res[m.group(1)] = [a.strip() for a in m.group(2).replace('\n', ' ').split(',') if a.strip()]
         else: res[m.group(3)] = []
     return res, txt
